@@ -846,7 +846,7 @@ func reachWithin(from, to *ssa.BasicBlock, cut, loop map[*ssa.BasicBlock]bool) b
 
 func checkStopOnDest(c *Ctx, e *Engine) {
 	R := c.R
-	if e.Update != nil {
+	if e.Parallel {
 		// parallel: sender re-tests the cancellable context; receiver cancels on IsDest
 		for _, s := range e.SendSites {
 			g := s.Parent()
